@@ -20,6 +20,10 @@ UNIVERSES = {
     "intkey": dict(hashable=True, bare=False),  # (k, p), key=lambda t: t[0], int keys
     "dict": dict(hashable=False, bare=False),   # {'k': 'k1', 'p': p}, key=lambda d: d['k']
     "list": dict(hashable=False, bare=True),    # ['a', p], key=lambda l: l[0]
+    # universes with FALSY items that share a key with truthy unequal ones (bool(stored) must play no role)
+    "int": dict(hashable=True, bare=False),     # k*16+p, key=lambda i: 'k%d' % (i // 16): item (0, 0) is 0
+    "ftuple": dict(hashable=True, bare=True),   # tuple subclass, falsy when p == 0, key=lambda t: t[0]
+    "fdict": dict(hashable=False, bare=False),  # dict subclass, falsy when p == 0, key=lambda d: d['k']
 }
 UNAMES = list(UNIVERSES)
 CMP = {"Le": "<=", "Lt": "<", "Ge": ">=", "Gt": ">"}
@@ -27,6 +31,18 @@ SWAP = {"Le": "Ge", "Lt": "Gt", "Ge": "Le", "Gt": "Lt"}
 BIN = ("And", "Or", "Sub", "Xor")
 OPERAND_OPS = ("Eq", "Ne", "Le", "Lt", "Ge", "Gt", "IsDisjoint", "And", "Or", "Sub", "Xor",
                "RAnd", "ROr", "RSub", "RXor", "IOr", "IAnd", "ISub", "IXor")
+
+
+class FalsyTuple(tuple):
+    """a tuple whose truth value is that of its payload: (c, 0) is falsy"""
+    def __bool__(self):
+        return self[1] != 0
+
+
+class FalsyDict(dict):
+    """a dict whose truth value is that of its payload: {'k': .., 'p': 0} is falsy"""
+    def __bool__(self):
+        return self["p"] != 0
 
 
 class FakeD:
@@ -53,7 +69,9 @@ class Impl:
         from spec_classes.types import KeyedSet
         self.u, self.typed, self.enf, self.KeyedSet = universe, typed, enf, KeyedSet
         self.keyf = {"self": None, "spec": None, "tuple": (lambda t: t[0]), "intkey": (lambda t: t[0]),
-                     "dict": (lambda d: d["k"]), "list": (lambda l: l[0])}[universe]
+                     "dict": (lambda d: d["k"]), "list": (lambda l: l[0]),
+                     "int": (lambda i: "k%d" % (i // 16)), "ftuple": (lambda t: t[0]),
+                     "fdict": (lambda d: d["k"])}[universe]
         if universe == "spec":
             @spec_class(key="k")
             class Item:
@@ -86,6 +104,16 @@ class Impl:
             if k == 9:
                 return {"k": 9, "p": p}
             return FakeD(f"k{k}", 9) if p == 9 else {"k": f"k{k}", "p": p}
+        if u == "int":
+            return float(k * 16 + 9) if p == 9 else k * 16 + p
+        if u == "ftuple":
+            if k == 9:
+                return FalsyTuple((9, p))
+            return f"{chr(97 + k)}9" if p == 9 else FalsyTuple((chr(97 + k), p))
+        if u == "fdict":
+            if k == 9:
+                return FalsyDict(k=9, p=p)
+            return FakeD(f"k{k}", 9) if p == 9 else FalsyDict(k=f"k{k}", p=p)
         if k == 9:
             return [9, p]
         return (chr(97 + k), 9) if p == 9 else [chr(97 + k), p]
@@ -97,7 +125,7 @@ class Impl:
             return self.item(kp)
         if u == "intkey":
             return k
-        if u in ("spec", "dict"):
+        if u in ("spec", "dict", "int", "fdict"):
             return f"k{k}"
         return chr(97 + k)
 
@@ -111,7 +139,7 @@ class Impl:
                 return self.dec_item(k)
             if u == "intkey":
                 return (9 if k == "nine" else int(k), 0)
-            if u in ("spec", "dict"):
+            if u in ("spec", "dict", "int", "fdict"):
                 return (9 if k == 9 else int(k[1:]), 0)
             return (9 if k == 9 else ord(k) - 97, 0)
         except Exception:
@@ -127,9 +155,11 @@ class Impl:
                 return (int(a), int(b))
             if u == "spec":
                 return (int(o.k[1:]), 9 if isinstance(o, self.Other) else o.p)
-            if u == "dict":
+            if u in ("dict", "fdict"):
                 return (self.dec_key(o["k"])[0], 9 if isinstance(o, FakeD) else o["p"])
-            if u == "tuple" and isinstance(o, str):
+            if u == "int":
+                return (int(o) // 16, 9) if isinstance(o, float) else (o // 16, o % 16)
+            if u in ("tuple", "ftuple") and isinstance(o, str):
                 return (ord(o[0]) - 97, 9)
             if u == "intkey" and isinstance(o, bytes):
                 return (o[0], 9)
@@ -155,7 +185,8 @@ class Impl:
         if not self.typed:
             return KS
         return {"self": lambda: KS[str, str], "tuple": lambda: KS[tuple, str], "spec": lambda: KS[self.Item, str],
-                "intkey": lambda: KS[tuple, int], "dict": lambda: KS[dict, str], "list": lambda: KS[list, str]}[self.u]()
+                "intkey": lambda: KS[tuple, int], "dict": lambda: KS[dict, str], "list": lambda: KS[list, str],
+                "int": lambda: KS[int, str], "ftuple": lambda: KS[tuple, str], "fdict": lambda: KS[dict, str]}[self.u]()
 
     def new(self, items):
         return self.ks_type()([self.item(x) for x in items], key=self.keyf, enforce_item_equivalence=self.enf)
@@ -322,7 +353,7 @@ def bad_items(u, keys, pays, typed):
     bad = []
     if typed:
         bad.append((keys[0], 9))
-        if u not in ("self", "spec"):
+        if u not in ("self", "spec", "int"):
             bad.append((9, pays[0]))
     return bad
 
@@ -441,9 +472,32 @@ def generate(rng, tier):
         keys, pays = [0, 1, 2], [0, 1]
         insts = op_instances(u, keys, pays, typed)
         for init in states(keys, pays, 2 if quick else 3):
-            st = 16 if quick else (3 if len(init) < 3 else 24)
+            st = 24 if quick else (4 if len(init) < 3 else 32)
             for op in insts[rng.randrange(st)::st]:
                 cases.append((u, typed, enf, init, [op], "exh1"))
+    # every entry point that can reach the equivalence check, with an incoming item that
+    # shares its key with a stored (possibly falsy: payload 0 / the int 0) unequal item:
+    # add, |=, ^=, the binary operators (results are built by the constructor), and
+    # construction from an iterable with two items under one key; all operand kinds
+    for u, typed, enf in configs:
+        if typed:
+            continue   # the type parameters play no role in the equivalence check
+        keys, pays = [0, 1], [0, 1]
+        for k in (keys if enf else keys[:1]):
+            for p in pays:
+                x, other = (k, 1 - p), (1 - k, p)
+                for init in ([(k, p)], [other, (k, p)], []):
+                    ops = [("Add", x)]
+                    for xs in ([x], [other, x], [(k, p), x]):
+                        operands = [("List", xs)]
+                        if len({y[0] for y in xs}) == len(xs):
+                            operands += [("KS", False, xs), ("KS", True, xs)]
+                        if UNIVERSES[u]["hashable"]:
+                            operands.append(("Set", xs))
+                        for o in operands:
+                            ops += [(n, o) for n in ("IOr", "IXor", "Or", "ROr", "Xor", "RXor", "And", "RSub")]
+                    for op in ops:
+                        cases.append((u, typed, enf, init, [op], "equiv"))
     # depth 2 over a smaller universe
     for u, typed, enf in configs:
         keys, pays = [0, 1], [0, 1]
@@ -730,7 +784,7 @@ def main(tier, replay=None):
         "evaluations": len(cases), "distinct_nontrivial": len(distinct),
         "rule": "case = (universe, typed, enforce_item_equivalence, initial items, operation list); depth-1: every state "
                 "of <=2 (thorough <=3) items of 3 keys x 2 payloads x a stride through every operation instance "
-                "(quick: every 16th; thorough: every 3rd for <=2 items, every 24th for 3), sampled depth-2, random "
+                "(quick: every 24th; thorough: every 4th for <=2 items, every 32nd for 3); 'equiv': every entry point reaching the equivalence check x every operand kind x stored/incoming items under one key (payload 0 is falsy in three universes), exhaustive over 2 keys x 2 payloads, sampled depth-2, random "
                 "sequences of <=8/16 operations over 5 keys x 3 payloads; distinct = distinct tuples; every case has >=1 operation",
         "samples": [dict(universe=c[0], typed=c[1], enforce=c[2], init=c[3], ops=c[4]) for c in pick],
         "exhaustive": False,
@@ -739,7 +793,7 @@ def main(tier, replay=None):
         trusted_base=["Coq 8.16.1 kernel and vm_compute", "no axioms (Print Assumptions: closed under the global context)",
                       "hand-written model coq/KS/Model.v (KeyedSet + collections.abc Set/MutableSet mixins + dict semantics) "
                       "tied to /repo by this run's correspondence",
-                      "harness/c14.py encoders and the six item universes"],
+                      "harness/c14.py encoders and the nine item universes"],
         assumptions=["items are values: == on items is equality; key functions are total on items and, on bare keys, "
                      "either return the key or raise TypeError (DESIGN section 7)",
                      "an item that can itself be used as a dictionary key is its own key (the class docstring warns "
